@@ -17,7 +17,7 @@ RULE = ("rejection kind (13 + 8 read-side variants + up to 15 further variants o
         "an existing dataset and raised. "
         "Reviewer extensions: existing dataset also {hive and hive-partitioned directory WITHOUT _metadata / "
         "_common_metadata (files found by listing the directory), single file and hive dataset whose columns are "
-        "stored REQUIRED with a categorical and a JSON column}; mode also {handle: ParquetFile.write_row_groups on a "
+        "stored REQUIRED with a categorical and a JSON column, hive and hive-partitioned dataset of twelve part files (appends and handle calls)}; mode also {handle: ParquetFile.write_row_groups on a "
         "handle the caller keeps, given a frame or an iterable of frames (also: only the second / third frame of the iterable has the other columns, through the handle and through write(append=True)); overwrite: append='overwrite'}; rejection "
         "kinds also {missing value under the STORED non-nullable schema: None in a text column, None / pd.NA in an "
         "integer column, NaN code in a categorical; set under the stored JSON encoding; partition_on omitted / "
@@ -39,6 +39,8 @@ DATASETS = ["simple1", "simple3", "hive", "hive_part"]
 NOMETA = ["hive_nometa", "hive_part_nometa"]
 # every column stored REQUIRED; k categorical, j JSON-encoded
 REQ = ["simple_req", "hive_req"]
+# datasets of twelve part files
+MANY = ["hive12", "hive_part12"]
 WRITE_REJECTIONS = ["complex_dtype", "int_colname", "dup_names", "none_required", "mixed_object", "int_as_utf8",
                     "diff_columns", "diff_scheme", "diff_partition", "bad_codec", "bad_times", "bad_object_encoding"]
 READ_REJECTIONS = ["unknown_column", "unknown_filter_column", "unknown_index", "unknown_category", "head_unknown",
@@ -142,7 +144,9 @@ def points(tier):
         _write_points(ds, tier, ("append",), pts)
         for rej in READ_REJECTIONS:
             pts.append({"ds": ds, "rej": rej, "mode": "read", "colpos": "first", "rowpos": "rg0"})
-    for ds in DATASETS + NOMETA:
+    for ds in MANY:
+        _write_points(ds, tier, ("append",), pts)
+    for ds in DATASETS + NOMETA + MANY:
         _handle_points(ds, tier, pts)
         # fastparquet.write(..., append=True) given an iterable of frames of which only a LATER one has other columns
         for rej in COLUMN_MISMATCH:
@@ -203,6 +207,16 @@ def create(ds, d):
     import os
     import fastparquet
     df = base_frame(req=ds in REQ)
+    if ds in MANY:
+        # twelve part files (part.0 .. part.11; in the partitioned layout every directory holds six of them): the
+        # part numbers no longer sort as text
+        df = base_frame(12)
+        path = os.path.join(d, "dsm")
+        okw = {"file_scheme": "hive"}
+        if ds == "hive_part12":
+            okw["partition_on"] = ["p"]
+        fastparquet.write(path, df, row_group_offsets=list(range(12)), write_index=False, **okw)
+        return path, okw
     if ds == "simple1":
         path = os.path.join(d, "t.parquet")
         fastparquet.write(path, df, write_index=False)
